@@ -13,6 +13,7 @@ import (
 	"fmt"
 	"io"
 	"net"
+	"os"
 	"strings"
 	"sync"
 	"sync/atomic"
@@ -44,6 +45,12 @@ type Inject struct {
 type Op struct {
 	Write int     `json:"write"`
 	Inj   *Inject `json:"inject,omitempty"`
+	// IdleMs > 0 (Write == 0, Inj == nil): the writer pauses here, alive but idle. Once the
+	// peer has received everything written so far (so its stream waits at a frame
+	// boundary) the peer sets a read deadline of IdleMs on its cross-node Conn, calls
+	// Read once (the deadline expires), clears the deadline and lets the writer continue.
+	// Only valid directly after a non-empty write of the stream itself.
+	IdleMs int `json:"idle_ms,omitempty"`
 }
 
 type Case struct {
@@ -159,6 +166,10 @@ func wireID(s string) [16]byte {
 	return id
 }
 
+// prefix16 is the harness's own view of "the first 16 bytes" of an id string (zero
+// padded), independent of the code under test.
+func prefix16(s string) (p [16]byte) { copy(p[:], s); return }
+
 // truncShape: two distinct id strings with equal first 16 bytes, at least one of them
 // longer than 16 bytes (the shape of the listed finding).
 func truncShape(a, b string) bool {
@@ -179,7 +190,7 @@ const sideSeed = 0x51DE
 
 func sideIDFor(own string) string {
 	s := "side-stream-0001"
-	if wireID(s) == wireID(own) {
+	if prefix16(s) == prefix16(own) {
 		s = "SIDE-stream-0002"
 	}
 	return s
@@ -273,6 +284,23 @@ func newStream(conn *crossnode.Conn, id [16]byte, tr int) *crossnode.FrameStream
 // ---------------------------------------------------------------------------
 // execution
 
+type idleResult struct {
+	at  int
+	n   int
+	err error
+	ran bool
+}
+
+// idlePlan: at stream offset at[k] the reader lets a read deadline of ms[k] expire on
+// conn while the writer is idle, then releases the writer.
+type idlePlan struct {
+	at      []int
+	ms      []int
+	conn    *crossnode.Conn
+	release []chan struct{}
+	res     []idleResult
+}
+
 type readResult struct {
 	got   []byte
 	err   error
@@ -283,12 +311,41 @@ type readResult struct {
 var scratchPool = sync.Pool{New: func() any { b := make([]byte, 1<<20); return &b }}
 
 // readAll reads the stream to its end with the prescribed buffer sizes (cycled).
-func readAll(s *crossnode.FrameStream, sizes []int, limit int, progress *atomic.Int64) (r readResult) {
+func readAll(s *crossnode.FrameStream, sizes []int, limit int, progress *atomic.Int64, plan *idlePlan) (r readResult) {
 	sp := scratchPool.Get().(*[]byte)
 	defer scratchPool.Put(sp)
 	scratch := *sp
 	idle := 0
+	k := 0
+	if plan != nil {
+		defer func() { // never leave the writer waiting
+			for ; k < len(plan.release); k++ {
+				close(plan.release[k])
+			}
+		}()
+	}
 	for i := 0; ; i++ {
+		for plan != nil && k < len(plan.at) && len(r.got) >= plan.at[k] {
+			if len(r.got) == plan.at[k] {
+				// everything written so far has been returned: the stream is at a frame boundary
+				// and the writer is parked. Let a read deadline expire.
+				d := time.Duration(plan.ms[k]) * time.Millisecond
+				if plan.ms[k]%2 == 1 {
+					plan.conn.SetDeadline(time.Now().Add(d))
+				} else {
+					plan.conn.SetReadDeadline(time.Now().Add(d))
+				}
+				n, err := s.Read(scratch[:4096])
+				plan.conn.SetDeadline(time.Time{})
+				plan.res[k] = idleResult{at: plan.at[k], n: n, err: err, ran: true}
+				if n > 0 {
+					r.got = append(r.got, scratch[:n]...)
+					progress.Add(int64(n))
+				}
+			}
+			close(plan.release[k])
+			k++
+		}
 		sz := sizes[i%len(sizes)]
 		if sz > len(scratch) {
 			sz = len(scratch)
@@ -323,6 +380,7 @@ func readAll(s *crossnode.FrameStream, sizes []int, limit int, progress *atomic.
 
 type outcome struct {
 	fwd, rev      readResult
+	idles         []idleResult
 	next          readResult
 	nextRan       bool
 	nextDelivered int64
@@ -362,6 +420,27 @@ func runStream(c Case, quiet time.Duration) (o outcome) {
 	}
 	wantRev := revModel(c)
 
+	var plan *idlePlan
+	{
+		pos := 0
+		for _, op := range c.Ops {
+			if op.Inj == nil && op.IdleMs > 0 {
+				if plan == nil {
+					plan = &idlePlan{conn: cb}
+				}
+				plan.at = append(plan.at, pos)
+				plan.ms = append(plan.ms, op.IdleMs)
+				plan.release = append(plan.release, make(chan struct{}))
+			} else if op.Inj == nil {
+				pos += op.Write
+			}
+		}
+		if plan != nil {
+			plan.res = make([]idleResult, len(plan.at))
+			defer func() { o.idles = plan.res }()
+		}
+	}
+
 	var mu sync.Mutex
 	setWriteFail := func(s string) {
 		mu.Lock()
@@ -394,7 +473,7 @@ func runStream(c Case, quiet time.Duration) (o outcome) {
 	aux.Add(1)
 	go func() {
 		defer aux.Done()
-		o.fwd = readAll(sb, c.ReadSizes, fwdLimit, &fwdProgress)
+		o.fwd = readAll(sb, c.ReadSizes, fwdLimit, &fwdProgress, plan)
 		frDone.Store(true)
 		close(fwdReaderDone)
 		if c.Next != nil {
@@ -407,7 +486,7 @@ func runStream(c Case, quiet time.Duration) (o outcome) {
 			}
 			sb2 := newStream(cb, wireID(c.Next.ID), c.Tracker)
 			o.nextRan = true
-			o.next = readAll(sb2, c.Next.ReadSizes, lim, &nextProgress)
+			o.next = readAll(sb2, c.Next.ReadSizes, lim, &nextProgress, nil)
 			nrDone.Store(true)
 		}
 		core.Done()
@@ -439,7 +518,17 @@ func runStream(c Case, quiet time.Duration) (o outcome) {
 		}()
 		off := 0
 		failed := false
+		idleK := 0
 		for i, op := range c.Ops {
+			if op.Inj == nil && op.IdleMs > 0 {
+				select {
+				case <-plan.release[idleK]:
+				case <-abort:
+					return
+				}
+				idleK++
+				continue
+			}
 			if op.Inj != nil {
 				id := own
 				if op.Inj.ID == "foreign" {
@@ -557,7 +646,7 @@ func runStream(c Case, quiet time.Duration) (o outcome) {
 		aux.Add(1)
 		go func() {
 			defer aux.Done()
-			o.rev = readAll(sa, c.RevReadSizes, len(wantRev)+1, &revProgress)
+			o.rev = readAll(sa, c.RevReadSizes, len(wantRev)+1, &revProgress, nil)
 			rrDone.Store(true)
 			close(revReaderDone)
 			core.Done()
@@ -801,7 +890,22 @@ func judge(c Case, o outcome) *failure {
 		}
 		return &failure{"C10/writer-refused-in-domain-operation" + big, o.writeFail}
 	}
+	for k, ir := range o.idles {
+		if ir.ran && ir.err != nil && errors.Is(ir.err, io.EOF) {
+			return &failure{"C10/read-deadline-reported-as-end-of-stream", fmt.Sprintf("idle point %d (stream offset %d): the peer was alive but idle, a %d ms read deadline on the cross-node Conn expired at a frame boundary and FrameStream.Read returned (%d, %v) - end-of-stream without Close/CloseWrite/transport close; afterwards %d of %d bytes were delivered", k, ir.at, c.idleMs(k), ir.n, ir.err, len(o.fwd.got), len(want))}
+		}
+	}
 	if f := judgeDir(c, "forward", o.fwd, want, wantMerged, mergedDiffers, mergedEnds); f != nil {
+		if prefix16(c.OwnID) != prefix16(c.ForeignID) && wireID(c.OwnID) == wireID(c.ForeignID) {
+			return &failure{"C10/tunnel-ids-differing-in-first-16-bytes-share-wire-id/stream", fmt.Sprintf("ids %q and %q differ within their first 16 bytes (%x vs %x) but TunnelIDFromString gives both the wire id %x; consequence: %s", c.OwnID, c.ForeignID, prefix16(c.OwnID), prefix16(c.ForeignID), wireID(c.OwnID), f.detail)}
+		}
+		for k, ir := range o.idles {
+			if ir.ran && ir.err != nil && len(o.fwd.got) <= ir.at && len(want) > ir.at {
+				f.key = "C10/no-delivery-after-expired-read-deadline"
+				f.detail = fmt.Sprintf("idle point %d (stream offset %d): Read returned %v when the read deadline expired; after the deadline was cleared the peer wrote %d more bytes, none were delivered (%s)", k, ir.at, ir.err, len(want)-ir.at, f.detail)
+				break
+			}
+		}
 		return f
 	}
 	if c.Ending == endCloseWrite {
@@ -853,6 +957,18 @@ func judgeNext(c Case, r readResult) *failure {
 		return &failure{"C10/error-instead-of-end-of-stream/" + where, fmt.Sprintf("second tunnel %q: all %d bytes delivered, then Read returned %v instead of io.EOF", c.Next.ID, len(want), r.err)}
 	}
 	return nil
+}
+
+func (c Case) idleMs(k int) int {
+	for _, op := range c.Ops {
+		if op.Inj == nil && op.IdleMs > 0 {
+			if k == 0 {
+				return op.IdleMs
+			}
+			k--
+		}
+	}
+	return 0
 }
 
 func judgeDir(c Case, dir string, r readResult, want, wantMerged []byte, mergedDiffers, mergedEnds bool) *failure {
@@ -952,6 +1068,10 @@ func (c Case) features() (big, injBetween bool, sig string) {
 	dataSeen := false
 	pending := false
 	for _, op := range c.Ops {
+		if op.Inj == nil && op.IdleMs > 0 {
+			sc = append(sc, "idle")
+			continue
+		}
 		if op.Inj == nil {
 			sc = append(sc, sizeClass(op.Write))
 			if op.Write > maxFrame {
@@ -1042,11 +1162,28 @@ func checkStream(t vkit.TB, c Case) {
 			if len(n.ReadSizes) == 0 {
 				n.ReadSizes = []int{4096}
 			}
-			if wireID(n.ID) == wireID(c.OwnID) {
+			if prefix16(n.ID) == prefix16(c.OwnID) {
 				n.ID = "N" + n.ID
 			}
 			c.Next = &n
 		}
+	}
+	{ // idle points are only meaningful directly after a non-empty own write, with a single writer and distinct ids
+		ok := len(c.Side) == 0 && prefix16(c.OwnID) != prefix16(c.ForeignID)
+		var ops []Op
+		for i, op := range c.Ops {
+			if op.Inj == nil && op.IdleMs > 0 {
+				op.Write = 0
+				if !ok || i == 0 || c.Ops[i-1].Inj != nil || c.Ops[i-1].IdleMs > 0 || c.Ops[i-1].Write == 0 {
+					continue
+				}
+				if op.IdleMs > 200 {
+					op.IdleMs = 200
+				}
+			}
+			ops = append(ops, op)
+		}
+		c.Ops = ops
 	}
 	if c.Poison {
 		poison(c.Seed)
@@ -1104,7 +1241,23 @@ func checkStream(t vkit.TB, c Case) {
 	if readClass(c.ReadSizes) == "partial-frame-reads" {
 		vkit.Class("feat:read-buffer<frame")
 	}
+	for k, ir := range o.idles {
+		_ = k
+		switch {
+		case !ir.ran:
+			vkit.Class("idle:not-reached")
+		case ir.err == nil:
+			vkit.Class("idle:read-returned-no-error")
+		case errors.Is(ir.err, os.ErrDeadlineExceeded):
+			vkit.Class("idle:deadline-expired->timeout-error,later-bytes-delivered")
+		default:
+			vkit.Class("idle:deadline-expired->other-error")
+		}
+	}
 	for _, op := range c.Ops {
+		if op.Inj == nil && op.IdleMs > 0 {
+			continue
+		}
 		if op.Inj == nil {
 			switch op.Write {
 			case 0:
@@ -1240,8 +1393,30 @@ func realisticID(t *rapid.T, label string) string {
 	return fmt.Sprintf("%s-tunnel-%d-%d", proto, nano, port)
 }
 
+var straddleRunes = []string{"é", "ß", "Ж", "中", "国", "€", "ᾉ", "한", "😀", "🯊", "𝄞"}
+
+// genStraddleID: ASCII up to offset 11..16, then multi-byte runes lying across byte 16.
+func genStraddleID(t *rapid.T, label string) string {
+	k := rapid.IntRange(11, 16).Draw(t, label+"Ascii")
+	s := rapid.StringMatching(fmt.Sprintf(`[a-z0-9-]{%d}`, k)).Draw(t, label+"Pre")
+	n := rapid.IntRange(1, 3).Draw(t, label+"NRunes")
+	for i := 0; i < n; i++ {
+		s += rapid.SampledFrom(straddleRunes).Draw(t, label+"Rune")
+	}
+	return s + rapid.StringMatching(`[a-z0-9]{0,6}`).Draw(t, label+"Tail")
+}
+
+// genBytesID: arbitrary non-NUL bytes (lone continuation bytes, invalid UTF-8).
+func genBytesID(t *rapid.T, label string) string {
+	return string(rapid.SliceOfN(rapid.ByteRange(1, 255), 0, 24).Draw(t, label+"Bytes"))
+}
+
 func genID(t *rapid.T, label string) string {
-	switch pick(t, label+"Class", 1, 1, 1, 1, 1, 2) {
+	switch pick(t, label+"Class", 1, 1, 1, 1, 1, 2, 2, 1) {
+	case 6:
+		return genStraddleID(t, label)
+	case 7:
+		return genBytesID(t, label)
 	case 0:
 		return ""
 	case 1:
@@ -1281,8 +1456,18 @@ func genIDs(t *rapid.T, collide bool) (own, foreign string) {
 		}
 		return
 	}
-	own, foreign = genID(t, "own"), genID(t, "foreign")
-	for i := 0; wireID(own) == wireID(foreign); i++ {
+	if pick(t, "straddlePair", 4, 1) == 1 {
+		// same ASCII head, different multi-byte runes around byte 16: the ids differ inside a rune
+		k := rapid.IntRange(12, 15).Draw(t, "headLen")
+		head := rapid.StringMatching(fmt.Sprintf(`[a-z0-9-]{%d}`, k)).Draw(t, "head")
+		r1 := rapid.SampledFrom(straddleRunes).Draw(t, "r1")
+		r2 := rapid.SampledFrom(straddleRunes).Draw(t, "r2")
+		own = head + r1 + rapid.StringMatching(`[a-z0-9中]{0,6}`).Draw(t, "tailA")
+		foreign = head + r2 + rapid.StringMatching(`[a-z0-9国]{0,6}`).Draw(t, "tailB")
+	} else {
+		own, foreign = genID(t, "own"), genID(t, "foreign")
+	}
+	for i := 0; prefix16(own) == prefix16(foreign); i++ {
 		foreign = string(rune('A'+i)) + foreign
 	}
 	return
@@ -1313,7 +1498,11 @@ func genCase(t *rapid.T) Case {
 	nops := rapid.IntRange(1, 9).Draw(t, "nops")
 	for i := 0; i < nops; i++ {
 		if pick(t, "opKind", 6, 4) == 0 {
-			c.Ops = append(c.Ops, Op{Write: genSize(t, "w", &budget)})
+			w := genSize(t, "w", &budget)
+			c.Ops = append(c.Ops, Op{Write: w})
+			if w > 0 && !collide && pick(t, "idleAfter", 5, 1) == 1 {
+				c.Ops = append(c.Ops, Op{IdleMs: rapid.IntRange(5, 30).Draw(t, "idleMs")})
+			}
 		} else {
 			c.Ops = append(c.Ops, Op{Inj: genInject(t)})
 		}
@@ -1346,7 +1535,7 @@ func genCase(t *rapid.T) Case {
 	}
 	if (c.Ending == endClose && pick(t, "reuseAfterClose", 1, 1) == 0) || (c.Ending == endCloseWrite && pick(t, "reuse", 3, 1) == 1) {
 		n := &NextTunnel{ID: genID(t, "nextID")}
-		for i := 0; wireID(n.ID) == wireID(c.OwnID); i++ {
+		for i := 0; prefix16(n.ID) == prefix16(c.OwnID); i++ {
 			n.ID = string(rune('N'+i)) + n.ID
 		}
 		nb := 1 << 20
@@ -1397,6 +1586,13 @@ func TestStreamFixed(t *testing.T) {
 			Next: &NextTunnel{ID: "tunnel-B", Ops: []Op{{Write: 5000}, {Inj: &Inject{ID: "foreign", Type: crossnode.FrameTypeClose}}, {Write: maxFrame + 1}}, Ending: endClose, ReadSizes: []int{4096}}},
 		Case{OwnID: "tcp-tunnel-1758000000000000001-5001", ForeignID: "x", Seed: 8, Ops: []Op{{Write: maxFrame + 1}, foreignData(10)}, Ending: endCloseWrite, Reverse: []int{100}, ReadSizes: []int{1 << 20}, RevReadSizes: []int{7},
 			Next: &NextTunnel{ID: "udp-tunnel-1758000000000000002-5002", Ops: []Op{{Inj: &Inject{ID: "foreign", Type: crossnode.FrameTypeData, Len: 50}}, {Write: 1}, {Write: 0}}, Ending: endCloseWrite, ReadSizes: []int{0, 1}}},
+	)
+	// read deadline expiring while the peer is idle but alive, then more data
+	cases = append(cases,
+		Case{OwnID: "tunnel-idle", ForeignID: "tunnel-X", Seed: 9, Ops: []Op{{Write: 1000}, {IdleMs: 10}, {Write: maxFrame + 1}, {IdleMs: 15}, foreignData(10), {Write: 5}},
+			Ending: endClose, ReadSizes: []int{100, maxFrame}},
+		// ids that differ only inside a multi-byte rune lying across byte 16
+		Case{OwnID: "aaaaaaaaaaaaaa中-tunnel", ForeignID: "aaaaaaaaaaaaaa国-tunnel", Seed: 10, Ops: []Op{{Write: 10}, foreignData(7), {Write: 10}}, Ending: endClose, ReadSizes: []int{4096}},
 	)
 	for _, c := range cases {
 		checkStream(t, c)
